@@ -6,7 +6,7 @@ namespace Hio.Tcp
 structure Inv (c : Conn) (p : Bytes) : Prop where
   safe : Safe c
   tx : c.kacc ++ c.txbs = p
-  rx : c.rxbs = c.kdel
+  rx : c.cleared ++ c.rxbs = c.kdel
   wtx : c.wireTx = if c.wl then c.kacc else []
   wrx : c.wireRx = if c.wl then c.kdel else []
 
@@ -60,9 +60,24 @@ theorem recvLoop_inv (script : List RResp) : ∀ {c : Conn} {p : Bytes}, Inv c p
         · simp only [h.safe.rx, Bool.false_eq_true, ↓reduceIte]
           apply ih
           refine ⟨h.safe, h.tx, ?_, h.wtx, ?_⟩
-          · simp [h.rx]
+          · simp [← h.rx]
           · simp only
             cases hw : c.wl <;> simp [h.wrx, hw]
+
+theorem serviceReceiveOnce_inv {c : Conn} {p : Bytes} (h : Inv c p) : Inv (serviceReceiveOnce c).1 p := by
+  unfold serviceReceiveOnce
+  split
+  · split
+    · exact recvFault_inv _ h
+    · exact recvFault_inv _ (c := { c with recvs := _ }) ⟨h.safe, h.tx, h.rx, h.wtx, h.wrx⟩
+    · split
+      · exact ⟨h.safe, h.tx, h.rx, h.wtx, h.wrx⟩
+      · simp only [h.safe.rx, Bool.false_eq_true, ↓reduceIte]
+        refine ⟨h.safe, h.tx, ?_, h.wtx, ?_⟩
+        · simp [← h.rx]
+        · simp only
+          cases hw : c.wl <;> simp [h.wrx, hw]
+  · exact h
 
 theorem serviceReceives_inv {c : Conn} {p : Bytes} (h : Inv c p) : Inv (serviceReceives c).1 p := by
   unfold serviceReceives
@@ -85,6 +100,11 @@ theorem step_inv {c : Conn} {p : Bytes} (op : Op) (h : Inv c p) : Inv (step c op
   | ss => simpa [step, payload] using serviceSends_inv h
   | sr => simpa [step, payload] using serviceReceives_inv h
   | rst => simpa [step, payload] using (⟨h.safe, h.tx, h.rx, h.wtx, h.wrx⟩ : Inv { c with peerGone := true } p)
+  | sro => simpa [step, payload] using serviceReceiveOnce_inv h
+  | clr =>
+    have : Inv { c with cleared := c.cleared ++ c.rxbs, rxbs := [] } p :=
+      ⟨h.safe, h.tx, by simpa using h.rx, h.wtx, h.wrx⟩
+    simpa [step, payload] using this
   | svc =>
     have e : p ++ payload [Op.svc] = p := by simp [payload]
     rw [e]
@@ -165,6 +185,18 @@ theorem step_wl (c : Conn) (op : Op) : (step c op).1.wl = c.wl := by
   | ss => exact serviceSends_wl c
   | sr => exact serviceReceives_wl c
   | rst => rfl
+  | clr => rfl
+  | sro =>
+    simp only [step]
+    unfold serviceReceiveOnce
+    split
+    · split
+      · exact recvFault_wl _ _
+      · exact recvFault_wl _ _
+      · split
+        · rfl
+        · split <;> rfl
+    · rfl
   | svc =>
     cases hk : c.kind <;> simp only [step, hk]
     · rw [andThen_wl serviceReceives_wl, serviceSends_wl]
